@@ -34,6 +34,18 @@ CHECKS = {
         design_ref="§4 C07, §9"),
 }
 
+CHECKS["C16"] = dict(
+    category="translation_validation",
+    technique="SAT over the symbolically executed sub-rule functions of the generated code: per-assignment enumeration count vs the age-erased query",
+    text="For every sub-rule family the compiler emitted for the corpus (kernels, seeded random programs, in the thorough tier also the "
+         "repository's own theories) the real generated functions are executed symbolically over arbitrary disjoint new/old tables; the "
+         "solver shows that every variable assignment is enumerated exactly once if its match contains a new tuple and never otherwise, "
+         "and that all sub-rules of a family are the same query once ages are erased (functionality rule: up to its symmetry). This validates "
+         "the translation source rule -> semi-naive plan -> Rust text per compiled program, which is the level the property is stated at.",
+    design_ref="§4 C16, §9",
+    note="Trusted: PrefixTreeN set semantics (C08 check), the symbolic executor (validated against native runs in the C01/C04 checks). "
+         "Programs are sampled; table contents and variable assignments are decided by the solver for universes of 2 (quick) and 3 (thorough) elements.")
+
 NOT_APPLICABLE = {
     "C02": "check not built yet (ghost-model soundness lemma planned, DESIGN.md §9)",
     "C03": "check not built yet (follows from C01 + C02 lemmas; idempotence lemma planned)",
